@@ -145,9 +145,56 @@ def _strategy():
                      and not mm.get('overloaded')]
             links = [mm['name'] for mm in ptrs if mm['kind'] == 'link' and mm.get('expr') is None]
             q2 = draw(st.sampled_from(tnames))
-            k = draw(st.integers(0, 33))
+            k = draw(st.integers(0, 39))
             new_i += 1
-            if k == 0:
+            if k in (34, 35) and props:
+                # an owned index (its full name embeds the owner and the expression), then a rename
+                # of the owner, a move to another module, or a rename of the indexed property
+                p = draw(st.sampled_from(props))
+                stmts.append(('add-index', f'alter type {q} {{ create index on (.{p}) }};'))
+                r = draw(st.integers(0, 3))
+                if r == 0:
+                    stmts.append(('rename-type-with-index', f'alter type {q} rename to {q}I{new_i};'))
+                    stmts.append(('drop-index', f'alter type {q}I{new_i} {{ drop index on (.{p}) }};'))
+                elif r == 1:
+                    stmts.append(('create-module', f'create module mv{new_i};'))
+                    stmts.append(('move-type-with-index', f"alter type {q} rename to mv{new_i}::{q.split('::')[-1]};"))
+                    stmts.append(('drop-index', f"alter type mv{new_i}::{q.split('::')[-1]} {{ drop index on (.{p}) }};"))
+                elif r == 2:
+                    stmts.append(('rename-indexed-ptr', f'alter type {q} {{ alter property {p} rename to {p}i{new_i} }};'))
+                    stmts.append(('drop-index', f'alter type {q} {{ drop index on (.{p}i{new_i}) }};'))
+                else:
+                    stmts.append(('add-constraint', f'alter type {q} {{ create constraint exclusive on (.{p}) }};'))
+                    stmts.append(('rename-type-with-index', f'alter type {q} rename to {q}I{new_i};'))
+            elif k in (36, 37):
+                # functions: rename within the module, to another module keeping the local name,
+                # overloads, and a rename of a parameter type (changes the function's full name)
+                stmts.append(('create-fn', f'create function default::g{new_i}(a: int64) -> int64 using (a + {new_i});'))
+                r = draw(st.integers(0, 4))
+                if r == 0:
+                    stmts.append(('rename-fn', f'alter function default::g{new_i}(a: int64) rename to default::h{new_i};'))
+                    stmts.append(('drop-fn', f'drop function default::h{new_i}(a: int64);'))
+                elif r == 1:
+                    stmts.append(('create-module', f'create module fm{new_i};'))
+                    stmts.append(('move-fn', f'alter function default::g{new_i}(a: int64) rename to fm{new_i}::g{new_i};'))
+                    if draw(st.booleans()):
+                        stmts.append(('drop-fn', f'drop function fm{new_i}::g{new_i}(a: int64);'))
+                elif r == 2:
+                    stmts.append(('create-fn-overload', f"create function default::g{new_i}(a: str) -> str using (a ++ 'x');"))
+                    stmts.append(('drop-fn', f'drop function default::g{new_i}(a: int64);'))
+                elif r == 3:
+                    stmts.append(('create-scalar', f'create scalar type default::FS{new_i} extending str;'))
+                    stmts.append(('create-fn', f'create function default::gs{new_i}(a: default::FS{new_i}) -> str using (<str>a);'))
+                    stmts.append(('rename-scalar-of-fn', f'alter scalar type default::FS{new_i} rename to default::FSr{new_i};'))
+                    if draw(st.booleans()):
+                        stmts.append(('drop-fn', f'drop function default::gs{new_i}(a: default::FSr{new_i});'))
+                else:
+                    stmts.append(('add-prop-default-fn', f'alter type {q} {{ create property dg{new_i} -> int64 {{ set default := default::g{new_i}(1) }} }};'))
+                    stmts.append(('rename-fn', f'alter function default::g{new_i}(a: int64) rename to default::h{new_i};'))
+            elif k in (38, 39):
+                stmts.append(('create-module', f'create module tm{new_i};'))
+                stmts.append(('move-type', f"alter type {q} rename to tm{new_i}::{q.split('::')[-1]};"))
+            elif k == 0:
                 stmts.append(('rename-type', f'alter type {q} rename to {q}X{new_i};'))
             elif k == 1 and ptrs:
                 p = draw(st.sampled_from(ptrs))
